@@ -106,6 +106,17 @@ pub fn gen_case(rng: &mut Rng, idx: usize, thorough: bool) -> Value {
             };
             json!({"json_schema": sch})
         }
+        3 if idx % 10 == 8 => {
+            // more than 32 (64) lexemes, and a row whose only allowed lexeme has index 32 (64): lexeme sets are bit
+            // vectors of several words, and the row's lexer start state is built by iterating one
+            let n = [31usize, 63, 32, 64][(idx / 10) % 4];
+            let mut g = String::from("start: head TAIL\nhead: ");
+            g.push_str(&(1..=n).map(|i| format!("H{i}")).collect::<Vec<_>>().join(" | "));
+            g.push('\n');
+            for i in 1..=n { g.push_str(&format!("H{i}: \"h{i:02}\"\n")); }
+            g.push_str("TAIL: \"zz\"\n");
+            json!({"lark": g})
+        }
         3 => json!({"json_schema": gen_json(rng, 0)}),
         _ => { let r = crate::rx::gen_rx(rng, 3); json!({"regex": r.to_regex()}) }
     };
